@@ -3,16 +3,20 @@ C06 — form descriptor dispatch.  Property theorems about `common.integral_data
 the `form_integral*` tables of `C/form.py` and the sub-domain part of `_compute_form_ir`
 (model: FfcxModel/IR/Layout.lean; helper lemmas: FfcxProofs/Lemmas/Layout.lean).
 
-  enum_order                      python tuple order = ufcx_integral_type enum order (Generated, decide)
-  ids_sorted                      ids (and form_integral_ids) non-decreasing inside every type group   [full]
-  triples_preserved               per type, the (id,name,domains) triples are only permuted           [full]
-  offsets_delimit_partial         offsets delimit the groups when every integral has ONE domain        [partial]
-  offsets_delimit_counterexample  prism ds(1)+ds(2)+dP: offsets [0,0,4,4,4,4] for 5 kernels            [negation of full]
-  kernels_of_type_partial         slice [offsets[t],offsets[t+1]) of the emitted table = type t's rows [partial]
-  expand_ids / listed_iff         kernels under (type,id) = integrals whose id tuple contains id       [full]
-  formIR_accepts                  accepted inputs: known type, non-empty tuple, every id ≥ -1          [full]
-  minus_one_only_otherwise_partial / _counterexample   -1 ⇐ 'otherwise' only if user ids are ≥ 0; `dx(-1)` is accepted
-  dispatch_partial                end-to-end: table rows visited for type t ~ expected rows            [partial]
+  enum_order                 python tuple order = ufcx_integral_type enum order (Generated, decide)
+  ids_sorted                 ids (and form_integral_ids) non-decreasing inside every type group          [full]
+  triples_preserved          per type, the (id,name,domains) triples are only permuted                  [full]
+  offsets_delimit            offsets delimit the groups — integrals with ANY number of domains           [full]
+  kernels_of_type            slice [offsets[t],offsets[t+1]) of the emitted table = type t's rows        [full]
+  expand_ids / listed_iff    kernels under (type,id) = integrals whose id tuple contains id              [full]
+  formIR_accepts / formIR_rejects   accepted ⇒ known type and every user id ≥ 0; any id < 0 is rejected [full]
+  minus_one_only_otherwise   a row with id −1 comes from an integral whose tuple contains 'otherwise'    [full]
+  dispatch                   end-to-end: table rows visited for type t ~ expected rows                   [full]
+  prism_offsets              the former F6 witness (prism ds(1)+ds(2)+dP) now gets [0,0,4,4,5,5]
+
+History: before the fix commits "form_integral_offsets must count one kernel per (integral, domain)
+pair" and "reject negative user subdomain ids, including -1" this file held `offsets_delimit_partial`
++ `offsets_delimit_counterexample` and `minus_one_only_otherwise_partial/_counterexample`.
 
 Core Lean only.
 -/
@@ -145,57 +149,33 @@ theorem triples_preserved (πs : List (List Nat)) (groups : List Group) (h : Arg
 
 /-! ### offsets -/
 
-/-
-FULL statement demanded by the property (`offsets_delimit`) — FALSE for the code as it is:
-
-  theorem offsets_delimit (πs groups) (h : ArgsortAll πs groups) :
-      Delimits (intData πs groups).offsets (groups.map kernelCount)
-
-i.e. `offsets[0] = 0`, `offsets[t+1] − offsets[t]` = number of kernel pointers emitted for type `t`
-(= Σ over its entries of |domains|), last = total — for integrals with ANY number of domains.
-What is missing: `integral_data` uses `offsets[-1]` (a kernel count) as an index into the list of
-entries `domains`; both coincide only when every earlier entry has exactly one domain.
--/
-
 theorem kernelCount_perm {g g' : Group} (h : g.Perm g') : kernelCount g = kernelCount g' := by
   simp only [kernelCount]
   exact (h.map _).sum_nat
 
-/-- **`offsets_delimit_partial`.**  If every integral has exactly one domain cell type (everything except
-prism/pyramid facet integrals), the offsets delimit the type groups: `Delimits` gives
-`offsets[0]=0`, `offsets[t+1]−offsets[t] = Σ|domains|` of type `t` (`Delimits.diff`), last = total. -/
-theorem offsets_delimit_partial (πs : List (List Nat)) (groups : List Group) (h : ArgsortAll πs groups)
-    (hsingle : ∀ g ∈ groups, ∀ e ∈ g, e.domains.length = 1) :
-    Delimits (intData πs groups).offsets (groups.map kernelCount) := by
+theorem sorted_counts (πs : List (List Nat)) (groups : List Group) (h : ArgsortAll πs groups) :
+    (List.zipWith sortGroup πs groups).map kernelCount = groups.map kernelCount := by
   have hs := sorted_forall πs groups h
-  -- sorted groups are single-domain as well and have the same kernel counts
-  have hsingle' : ∀ g ∈ List.zipWith sortGroup πs groups, ∀ e ∈ g, e.domains.length = 1 := by
-    intro g hg e he
-    obtain ⟨t, ht, rfl⟩ := List.getElem_of_mem hg
-    have ht' : t < groups.length := by rw [← hs.1]; exact ht
-    have hp := (hs.2 t ht').1
-    have e1 : (List.zipWith sortGroup πs groups).getD t [] = (List.zipWith sortGroup πs groups)[t] :=
-      getD_eq_getElem' _ _ _ ht
-    have : e ∈ groups.getD t [] := hp.subset (e1 ▸ he)
-    have hmem : groups.getD t [] ∈ groups := by
-      rw [getD_eq_getElem' _ _ _ ht']; exact List.getElem_mem _
-    exact hsingle _ hmem e this
-  have hcounts : (List.zipWith sortGroup πs groups).map kernelCount = groups.map kernelCount := by
-    apply List.ext_getElem (by simp only [List.length_map]; exact hs.1)
-    intro t h1 h2
-    have ht' : t < groups.length := by simpa using h2
-    have hp := (hs.2 t ht').1
-    have ht : t < (List.zipWith sortGroup πs groups).length := by simpa using h1
-    simp only [List.getElem_map]
-    have e1 : (List.zipWith sortGroup πs groups).getD t [] = (List.zipWith sortGroup πs groups)[t] :=
-      getD_eq_getElem' _ _ _ ht
-    have e2 : groups.getD t [] = groups[t] := getD_eq_getElem' _ _ _ ht'
-    rw [← e1, ← e2]
-    exact kernelCount_perm hp
-  have := offsLoop_single [] (List.zipWith sortGroup πs groups) hsingle'
+  apply List.ext_getElem (by simp only [List.length_map]; exact hs.1)
+  intro t h1 h2
+  have ht' : t < groups.length := by simpa using h2
+  have hp := (hs.2 t ht').1
+  have ht : t < (List.zipWith sortGroup πs groups).length := by simpa using h1
+  simp only [List.getElem_map]
+  have e1 : (List.zipWith sortGroup πs groups).getD t [] = (List.zipWith sortGroup πs groups)[t] :=
+    getD_eq_getElem' _ _ _ ht
+  have e2 : groups.getD t [] = groups[t] := getD_eq_getElem' _ _ _ ht'
+  rw [← e1, ← e2]
+  exact kernelCount_perm hp
+
+/-- **`offsets_delimit`** (full).  For every FormIR — integrals with ANY number of domain cell types —
+and every admissible argsort result, `form_integral_offsets` delimits the type groups of the kernel
+table: `Delimits` gives `offsets[0]=0`, `offsets[t+1]−offsets[t] = Σ|domains|` of type `t` = number
+of kernel pointers emitted for `t` (`Delimits.diff`), last = total number of kernels (`Delimits.last`). -/
+theorem offsets_delimit (πs : List (List Nat)) (groups : List Group) (h : ArgsortAll πs groups) :
+    Delimits (intData πs groups).offsets (groups.map kernelCount) := by
   simp only [intData, offsets]
-  rw [show ([] : List Entry).length = 0 from rfl] at this
-  rw [this, hcounts]
+  rw [offsLoop_eq, sorted_counts πs groups h]
   exact delimits_cumul _
 
 /-- The prism witness of DESIGN §7 F6, `u*v*ds(1) + 2*u*v*ds(2) + u*v*dP` on a prism mesh
@@ -206,44 +186,27 @@ def prismWitness : List Group :=
 /-- the (unique) argsort results on the witness -/
 def prismPerms : List (List Nat) := [[], [0, 1], [], [0], []]
 
-/-- **`offsets_delimit_counterexample`.**  On the witness (ids are distinct, so the argsort is unique)
-the code produces `[0,0,4,4,4,4]` although 5 kernel pointers are emitted: the vertex group
-`[offsets[3], offsets[4])` is empty and the vertex kernel is unreachable; the full statement fails. -/
-theorem offsets_delimit_counterexample :
+/-- **`prism_offsets`** (non-vacuity of `offsets_delimit` on a multi-domain form): the former F6 witness
+now gets `[0,0,4,4,5,5]` for its 5 kernels (it was `[0,0,4,4,4,4]`). -/
+theorem prism_offsets :
     ArgsortAll prismPerms prismWitness
-    ∧ (intData prismPerms prismWitness).offsets = [0, 0, 4, 4, 4, 4]
-    ∧ (emit (List.zipWith sortGroup prismPerms prismWitness).flatten).length = 5
-    ∧ prismWitness.map kernelCount = [0, 4, 0, 1, 0]
-    ∧ ¬ Delimits (intData prismPerms prismWitness).offsets (prismWitness.map kernelCount) := by
-  refine ⟨by decide, by decide, by decide, by decide, ?_⟩
-  intro h
-  exact absurd (h.2 4 (by decide)) (by decide)
+    ∧ (intData prismPerms prismWitness).offsets = [0, 0, 4, 4, 5, 5]
+    ∧ (emit (List.zipWith sortGroup prismPerms prismWitness).flatten).length = 5 := by
+  refine ⟨by decide, by decide, by decide⟩
 
-/-- smallest witness: `u*v*ds + u*v*dP` on a prism → `[0,0,2,2,2,2]` for 3 kernels -/
-theorem offsets_delimit_counterexample_min :
-    (intData [[], [0], [], [0], []] [[], [⟨-1, "ds", [2, 4]⟩], [], [⟨-1, "dP", [0]⟩], []]).offsets
-      = [0, 0, 2, 2, 2, 2] := by
-  decide
-
-/-- **`kernels_of_type_partial`.**  With single-domain integrals, the rows `offsets[t] ≤ k < offsets[t+1]`
-of the emitted `(form_integral_ids, form_integrals)` table are exactly the rows of type `t`. -/
-theorem kernels_of_type_partial (πs : List (List Nat)) (groups : List Group) (h : ArgsortAll πs groups)
-    (hsingle : ∀ g ∈ groups, ∀ e ∈ g, e.domains.length = 1) (t : Nat) (ht : t < groups.length) :
+/-- **`kernels_of_type`** (full).  The rows `offsets[t] ≤ k < offsets[t+1]` of the emitted
+`(form_integral_ids, form_integrals)` table are exactly the rows of type `t` — for integrals with any
+number of domains. -/
+theorem kernels_of_type (πs : List (List Nat)) (groups : List Group) (h : ArgsortAll πs groups)
+    (t : Nat) (ht : t < groups.length) :
     let sorted := List.zipWith sortGroup πs groups
     slice (intData πs groups).offsets t (emit sorted.flatten) = emit (sorted.getD t []) := by
   intro sorted
   have hs := sorted_forall πs groups h
-  have hd := offsets_delimit_partial πs groups h hsingle
+  have hd := offsets_delimit πs groups h
   have hcounts : groups.map kernelCount = (sorted.map emit).map List.length := by
-    apply List.ext_getElem (by simp only [List.length_map]; exact hs.1.symm)
-    intro k h1 h2
-    have hk : k < groups.length := by simpa using h1
-    have hk' : k < sorted.length := by rw [hs.1]; exact hk
-    simp only [List.getElem_map, emit_length]
-    have e1 : sorted.getD k [] = sorted[k] := getD_eq_getElem' _ _ _ hk'
-    have e2 : groups.getD k [] = groups[k] := getD_eq_getElem' _ _ _ hk
-    rw [← e1, ← e2]
-    exact (kernelCount_perm (hs.2 k hk).1).symm
+    rw [← sorted_counts πs groups h]
+    simp [sorted, emit_length]
   rw [hcounts] at hd
   have ht' : t < sorted.length := by rw [hs.1]; exact ht
   rw [emit_flatten, slice_flatten _ _ hd t (by simpa using ht')]
@@ -278,36 +241,31 @@ theorem listed_iff (n : Nat) (itgs : List ItgData) (gs : List Group) (h : formIR
   · rintro ⟨d, hd, hty, s, hs, rfl⟩
     exact ⟨d, ⟨hd, hty⟩, s, hs, rfl⟩
 
-/-- **`formIR_accepts`** (full).  What is accepted: every integral has a known type, a non-empty tuple,
-and no id below −1 (the error message says "non-negative", the test is `< -1`). -/
+/-- **`formIR_accepts`** (full).  What is accepted: every integral has a known type and every user id
+(everything except 'otherwise') is non-negative — as the error message says. -/
 theorem formIR_accepts (n : Nat) (itgs : List ItgData) (gs : List Group) (h : formIR n itgs = .ok gs) :
-    ∀ d ∈ itgs, d.itype < n ∧ d.subIds ≠ [] ∧ ∀ s ∈ d.subIds, -1 ≤ s.toInt := by
+    ∀ d ∈ itgs, d.itype < n ∧ ∀ i, SubId.num i ∈ d.subIds → 0 ≤ i := by
   have := (formIRLoop_ok (List.replicate n []) itgs gs h).2.2
   simpa using this
 
-/-- ids below −1 are rejected with the ValueError -/
+/-- **`formIR_rejects`** (full).  ANY negative user id anywhere (−1 included) makes `_compute_form_ir` fail. -/
 theorem formIR_rejects (n : Nat) (pre : List ItgData) (d : ItgData) (post : List ItgData)
-    (s : SubId) (hs : s ∈ d.subIds) (hneg : s.toInt < -1) :
+    (i : Int) (hs : SubId.num i ∈ d.subIds) (hneg : i < 0) :
     ∀ gs, formIR n (pre ++ d :: post) ≠ .ok gs := by
   intro gs h
-  have := formIR_accepts n _ gs h d (by simp)
-  have := this.2.2 s hs
+  have := (formIR_accepts n _ gs h d (by simp)).2 i hs
   omega
 
-/-
-FULL statement (DESIGN §6 C06 T): "−1 appears only for 'otherwise'":
+/-- … and the rejection is the ValueError with the documented message when it is the first problem -/
+theorem formIR_rejects_message (n : Nat) (d : ItgData) (post : List ItgData)
+    (i : Int) (hs : SubId.num i ∈ d.subIds) (hneg : i < 0) :
+    formIR n (d :: post) = .error "Integral subdomain IDs must be non-negative." := by
+  simp [formIR, formIRLoop, formIRStep_neg _ d i hs hneg]
 
-  ∀ n itgs gs, formIR n itgs = .ok gs → ∀ t < n, ∀ e ∈ gs.getD t [], e.id = -1 →
-      ∃ d ∈ itgs, d.itype = t ∧ SubId.otherwise ∈ d.subIds ∧ e.name = d.name
-
-FALSE as the code is: an explicit user id −1 passes the `< -1` test.
--/
-
-/-- **`minus_one_only_otherwise_partial`**: holds when the user's integer ids are non-negative
-(what the error message of `_compute_form_ir` claims to enforce). -/
-theorem minus_one_only_otherwise_partial (n : Nat) (itgs : List ItgData) (gs : List Group)
+/-- **`minus_one_only_otherwise`** (full).  A row listed under id −1 (the slot UFCx consumers integrate over
+the whole mesh) always comes from an integral whose sub-domain tuple contains 'otherwise'. -/
+theorem minus_one_only_otherwise (n : Nat) (itgs : List ItgData) (gs : List Group)
     (h : formIR n itgs = .ok gs)
-    (hnonneg : ∀ d ∈ itgs, ∀ i, SubId.num i ∈ d.subIds → 0 ≤ i)
     (t : Nat) (ht : t < n) (e : Entry) (he : e ∈ gs.getD t []) (hid : e.id = -1) :
     ∃ d ∈ itgs, d.itype = t ∧ SubId.otherwise ∈ d.subIds ∧ e.name = d.name ∧ e.domains = d.domains := by
   obtain ⟨d, hd, hty, s, hs, rfl⟩ := (listed_iff n itgs gs h t ht e).mp he
@@ -315,45 +273,29 @@ theorem minus_one_only_otherwise_partial (n : Nat) (itgs : List ItgData) (gs : L
   cases s with
   | otherwise => exact hs
   | num i =>
-    have := hnonneg d hd i hs
+    have := (formIR_accepts n itgs gs h d hd).2 i hs
     simp only [SubId.toInt] at hid
     omega
 
-/-- **`minus_one_only_otherwise_counterexample`**: `u*v*dx(-1)` is accepted and its kernel is listed
-under id −1, the slot UFCx consumers integrate over the whole mesh. -/
-theorem minus_one_only_otherwise_counterexample :
-    ∃ gs, formIR 5 [⟨0, [.num (-1)], "k", [3]⟩] = .ok gs
-      ∧ (⟨-1, "k", [3]⟩ : Entry) ∈ gs.getD 0 []
-      ∧ ¬ ∃ d ∈ [(⟨0, [.num (-1)], "k", [3]⟩ : ItgData)], SubId.otherwise ∈ d.subIds := by
-  refine ⟨_, rfl, by decide, ?_⟩
-  rintro ⟨d, hd, ho⟩
-  simp only [List.mem_singleton] at hd
-  subst hd
-  simp at ho
+/-- the former witness `u*v*dx(-1)` is now rejected -/
+theorem explicit_minus_one_rejected :
+    formIR 5 [⟨0, [.num (-1)], "k", [3]⟩] = .error "Integral subdomain IDs must be non-negative." :=
+  formIR_rejects_message 5 _ [] (-1) (by simp) (by decide)
 
 /-! ### end to end -/
 
-/-- **`dispatch_partial`.**  From UFL's integral data to the C tables: if `_compute_form_ir` accepts the
-integrals and every integral has one domain cell type, then for every integral type `t` the rows
+/-- **`dispatch`** (full).  From UFL's integral data to the C tables: if `_compute_form_ir` accepts the
+integrals, then for every integral type `t` and every admissible argsort result the rows
 `(id, kernel, domain)` a UFCx consumer visits between `form_integral_offsets[t]` and `[t+1]` are a
-permutation of: every integral of type `t` once per id of its tuple — hence the kernels visited for
-`(t, id)` are exactly the integrals declared for that id, and their results add up to the sum of the
-declared integrands (each kernel accumulates into `A`, property C07).
-FULL statement: the same without `hsingle`; false by `offsets_delimit_counterexample`. -/
-theorem dispatch_partial (itgs : List ItgData) (gs : List Group) (πs : List (List Nat))
-    (n : Nat) (h : formIR n itgs = .ok gs) (hπ : ArgsortAll πs gs)
-    (hsingle : ∀ d ∈ itgs, d.domains.length = 1) (t : Nat) (ht : t < n) :
+permutation of: every integral of type `t`, once per id of its tuple and per domain cell type — hence
+the kernels visited for `(t, id)` are exactly the integrals declared for that id (each kernel
+accumulates into `A`, property C07, so applying them one after another adds the declared integrands). -/
+theorem dispatch (itgs : List ItgData) (gs : List Group) (πs : List (List Nat))
+    (n : Nat) (h : formIR n itgs = .ok gs) (hπ : ArgsortAll πs gs) (t : Nat) (ht : t < n) :
     (slice (intData πs gs).offsets t (emit (List.zipWith sortGroup πs gs).flatten)).Perm
       (emit (expectedGroup itgs t)) := by
   obtain ⟨hl, hg⟩ := expand_ids n itgs gs h
-  have hs : ∀ g ∈ gs, ∀ e ∈ g, e.domains.length = 1 := by
-    intro g hg' e he
-    obtain ⟨k, hk, rfl⟩ := List.getElem_of_mem hg'
-    have e2 : gs.getD k [] = gs[k] := getD_eq_getElem' _ _ _ hk
-    have := (listed_iff n itgs gs h k (by omega) e).mp (e2 ▸ he)
-    obtain ⟨d, hd, _, s, _, rfl⟩ := this
-    exact hsingle d hd
-  rw [kernels_of_type_partial πs gs hπ hs t (by omega)]
+  rw [kernels_of_type πs gs hπ t (by omega)]
   have hp := ((sorted_forall πs gs hπ).2 t (by omega)).1
   rw [hg t ht] at hp
   exact hp.flatMap_right _
@@ -369,11 +311,10 @@ def demoItgs : List ItgData :=
 def demoPerms : List (List Nat) := [[3, 1, 2, 0, 4], [0], [], [0], []]
 
 example : ∃ gs, formIR 5 demoItgs = .ok gs ∧ ArgsortAll demoPerms gs
-    ∧ (∀ d ∈ demoItgs, d.domains.length = 1)
     ∧ (intData demoPerms gs).ids = [-1, 1, 1, 3, 7, -1, 2]
     ∧ (intData demoPerms gs).names = ["d", "a", "c", "a", "d", "b", "e"]
     ∧ (intData demoPerms gs).offsets = [0, 5, 6, 6, 7, 7] :=
-  ⟨_, rfl, by decide, by decide, by decide, by decide, by decide⟩
+  ⟨_, rfl, by decide, by decide, by decide, by decide⟩
 
 example : IsArgsort [3, 1, 1, -1] [3, 2, 1, 0] := by
   refine ⟨by decide, by decide⟩
